@@ -566,6 +566,131 @@ class RecS(Stub):
         return f"{cls.cname}({', '.join(f'{n}={v!r}' for n, v in zip(cls.names, self.__dict__['_vals']))})"
 
 
+class ClassS(Stub):
+    """A plain class of the analysed module (no bases): calling it evaluates __init__ on a fresh instance; methods and
+    properties are evaluated on demand with self bound; class-level constants are folded."""
+
+    def __init__(self, repo, module: str, cls: ast.ClassDef):
+        self.repo, self.module, self.cname = repo, module, cls.name
+        self.funcs = {b.name: b for b in cls.body if isinstance(b, ast.FunctionDef)}
+        self.consts = {t.id: b.value for b in cls.body if isinstance(b, ast.Assign) for t in b.targets if isinstance(t, ast.Name)}
+        self.consts.update({b.target.id: b.value for b in cls.body if isinstance(b, ast.AnnAssign) and isinstance(b.target, ast.Name) and b.value is not None})
+
+    @staticmethod
+    def read(repo, module: str, cls: ast.ClassDef) -> Optional["ClassS"]:
+        if [b for b in cls.bases if norm(b) != "object"] or cls.keywords or cls.decorator_list:
+            return None
+        for b in cls.body:
+            if not isinstance(b, (ast.FunctionDef, ast.Assign, ast.AnnAssign, ast.Pass)) and not (isinstance(b, ast.Expr) and isinstance(b.value, ast.Constant)):
+                return None
+        if any(k.startswith("__") and k not in ("__init__", "__len__", "__bool__", "__iter__", "__contains__", "__str__", "__repr__") for k in (b.name for b in cls.body if isinstance(b, ast.FunctionDef))):
+            return None
+        return ClassS(repo, module, cls)
+
+    def __call__(self, *args, **kw):
+        inst = InstS(self)
+        if "__init__" in self.funcs:
+            inst._call(self.funcs["__init__"], args, kw)
+        elif args or kw:
+            raise NotConst(f"arguments of {self.cname}")
+        return inst
+
+
+class InstS(Stub):
+    def __init__(self, cls: ClassS):
+        self.__dict__["_cls"] = cls
+        self.__dict__["_attrs"] = {}
+
+    def _call(self, fn: ast.FunctionDef, args, kw):
+        cls = self.__dict__["_cls"]
+        a = fn.args
+        if a.vararg or a.kwarg or a.kwonlyargs or a.posonlyargs:
+            raise NotConst(f"signature of {cls.cname}.{fn.name}")
+        params = [p.arg for p in a.args]
+        defaults = dict(zip(reversed(params), reversed(a.defaults)))
+        if len(args) + 1 > len(params) or any(k not in params[1:] for k in kw):
+            raise NotConst(f"arity of {cls.cname}.{fn.name}")
+        bound = dict(zip(params, (self,) + tuple(args)))
+        bound.update(kw)
+        for p_ in params:
+            if p_ not in bound:
+                if p_ not in defaults:
+                    raise NotConst(f"missing argument {p_} of {cls.cname}.{fn.name}")
+                bound[p_] = Folder(cls.repo, cls.module).fold(defaults[p_])
+        caller = Ev.current[0] if Ev.current is not None else None
+        env = {k: v for k, v in (caller.env if caller is not None else base_env(cls.repo)).items() if callable(v) or getattr(v, "_folder_stub", False)}
+        for p_ in params:
+            env.pop(p_, None)
+        env.update(bound)
+        sub = Ev(cls.repo, cls.module, env, caller.conds if caller is not None else None)
+        if caller is not None:
+            sub.ctx, sub.tag = caller.ctx, caller.tag
+        sub.ctx.append(CallFrame(bound[p_] for p_ in params[1:]))
+        try:
+            if _is_generator(fn):
+                sub.yielded = []
+                sub.run(fn.body)
+                return sub.yielded
+            kind, val = sub.run(fn.body)
+            return val if kind == "return" else None
+        finally:
+            sub.ctx.pop()
+            if caller is not None:
+                Ev.current = (caller, Ev.current[1] if Ev.current else None)
+
+    def __getattr__(self, attr):
+        cls, attrs = self.__dict__["_cls"], self.__dict__["_attrs"]
+        if attr in attrs:
+            return attrs[attr]
+        if attr in cls.funcs:
+            fn = cls.funcs[attr]
+            decos = {ast.unparse(d).split(".")[-1].split("(")[0] for d in fn.decorator_list}
+            if decos & {"staticmethod", "classmethod"} or decos - {"property", "cached_property"}:
+                raise AttributeError(attr)
+            if decos & {"property", "cached_property"}:
+                return self._call(fn, (), {})
+            return lambda *a, **k: self._call(fn, a, k)
+        if attr in cls.consts:
+            return Folder(cls.repo, cls.module).fold(cls.consts[attr])
+        raise AttributeError(attr)
+
+    def __setattr__(self, attr, v):
+        self.__dict__["_attrs"][attr] = v
+
+    def __repr__(self):
+        return f"<{self.__dict__['_cls'].cname} object>"
+
+
+class PathS(Stub):
+    """pathlib.Path as far as a report needs it: name parts of a path string."""
+
+    def __init__(self, *parts):
+        self.path = os.path.join(*[str(x) for x in parts]) if parts else "."
+
+    name = property(lambda self: os.path.basename(self.path))
+    stem = property(lambda self: os.path.splitext(os.path.basename(self.path))[0])
+    suffix = property(lambda self: os.path.splitext(os.path.basename(self.path))[1])
+    parent = property(lambda self: PathS(os.path.dirname(self.path)))
+
+    def with_suffix(self, sfx):
+        return PathS(os.path.splitext(self.path)[0] + sfx)
+
+    def __truediv__(self, o):
+        return PathS(self.path, str(o))
+
+    def __fspath__(self):
+        return self.path
+
+    def __str__(self):
+        return self.path
+
+    def __eq__(self, o):
+        return isinstance(o, PathS) and o.path == self.path
+
+    def __hash__(self):
+        return hash(self.path)
+
+
 def plain(x):
     """NamedTuple records as the plain tuples they are (for reading results)."""
     if isinstance(x, RecS) and x.__dict__["_cls"].kind == "namedtuple":
@@ -622,6 +747,7 @@ def stdlib(repo, module) -> Dict[str, Any]:
         "functools": ns(reduce=functools.reduce, partial=functools.partial, cmp_to_key=functools.cmp_to_key),
         "heapq": ns(nlargest=heapq.nlargest, nsmallest=heapq.nsmallest),
         "collections": ns(defaultdict=BASE["defaultdict"], OrderedDict=dict, namedtuple=_namedtuple_factory(repo, module)),
+        "pathlib": ns(Path=PathS, PurePath=PathS),
     }
 
 
@@ -690,6 +816,19 @@ class F(Folder):
                     fn = getattr(recv, f.attr)
                     if f.attr in ("keys", "values", "items"):
                         return list(fn())
+        if fn is None and isinstance(f, ast.Name) and f.id in ("getattr", "hasattr") and f.id not in self.local and not n.keywords and len(n.args) in (2, 3):
+            obj, attr = self.fold(n.args[0]), self.fold(n.args[1])
+            if not (getattr(obj, "_folder_stub", False) or isinstance(obj, types.SimpleNamespace)) or not isinstance(attr, str) or attr.startswith("_"):
+                raise NotConst(f"{f.id} on a value that is not a stub")
+            try:
+                val = getattr(obj, attr)
+            except AttributeError:
+                if f.id == "hasattr":
+                    return False
+                if len(n.args) == 3:
+                    return self.fold(n.args[2])
+                raise NotConst(f"getattr: no attribute {attr}")
+            return True if f.id == "hasattr" else val
         if fn is None and isinstance(f, ast.Name) and f.id not in self.local and n.keywords and f.id in _KW_BUILTINS and all(k.arg is not None for k in n.keywords):
             fn = _KW_BUILTINS[f.id]  # max(xs, key=..., default=...), sorted(xs, key=..., reverse=...), sum(xs, start=...), ...
         if fn is None:
@@ -738,6 +877,16 @@ def _bind(target, value, env):
             _bind(t, v, env)
     else:
         raise NotConst("bind target")
+
+
+def copy_load(t: ast.AST) -> ast.AST:
+    import copy
+
+    e = copy.deepcopy(t)
+    for n in ast.walk(e):
+        if hasattr(n, "ctx"):
+            n.ctx = ast.Load()
+    return ast.fix_missing_locations(e)
 
 
 def _is_generator(fn: ast.FunctionDef) -> bool:
@@ -847,6 +996,12 @@ class Ev(BlockEval):
 
     # ---- statements
     def _assign(self, t: ast.AST, v: Any) -> None:
+        if isinstance(t, ast.Attribute):
+            obj = self.fold(t.value)
+            if not isinstance(obj, InstS):
+                raise Unknown(f"assignment target `{ast.unparse(t)[:40]}`")
+            obj.__dict__["_attrs"][t.attr] = v
+            return
         if isinstance(t, ast.Subscript) and not (isinstance(t.value, ast.Name)):
             box = self.fold(t.value)
             if not isinstance(box, (dict, list)):
@@ -952,12 +1107,16 @@ class Ev(BlockEval):
                 sub = Ev(self.repo, self.module, dict(self.env, **dict(zip(_params, args))), self.conds)
                 sub.ctx = self.ctx
                 sub.tag = self.tag
-                if _is_generator(_st):
-                    sub.yielded = []
-                    sub.run(_st.body)
-                    return sub.yielded
-                kind, val = sub.run(_st.body)
-                return val if kind == "return" else None
+                self.ctx.append(CallFrame(args))
+                try:
+                    if _is_generator(_st):
+                        sub.yielded = []
+                        sub.run(_st.body)
+                        return sub.yielded
+                    kind, val = sub.run(_st.body)
+                    return val if kind == "return" else None
+                finally:
+                    self.ctx.pop()
 
             self.env[st.name] = call
         elif isinstance(st, ast.Expr) and isinstance(st.value, ast.Call):
@@ -969,6 +1128,9 @@ class Ev(BlockEval):
         elif isinstance(st, ast.Expr):
             if not isinstance(st.value, (ast.Constant, ast.Name)):
                 self.fold(st.value)
+        elif isinstance(st, ast.AugAssign) and isinstance(st.target, (ast.Subscript, ast.Attribute)):
+            load = copy_load(st.target)
+            self._assign(st.target, self.fold(ast.BinOp(left=load, op=st.op, right=st.value)))
         elif isinstance(st, ast.Delete):
             raise Unknown("del statement")
         else:
@@ -990,7 +1152,7 @@ def base_env(repo) -> Dict[str, Any]:
         if any(norm(b).split(".")[-1] in ("Enum", "IntEnum", "StrEnum") for b in cls.bases):
             env[cname] = EnumS(repo, M, cname)
         else:
-            rec = RecordClassS.read(repo, M, cls)
+            rec = RecordClassS.read(repo, M, cls) or ClassS.read(repo, M, cls)
             if rec is not None:
                 env[cname] = rec
     for name, expr in mod.consts.items():  # Pair = namedtuple("Pair", "residue atom")
@@ -1596,8 +1758,31 @@ class MainEval:
                 add_argument_group = add_mutually_exclusive_group
 
             def fopen(path, mode="r", *a, **k):
+                path = path.path if isinstance(path, PathS) else path
                 cap.opened.append((path, mode))
                 return FileS(path, mode)
+
+            class StdoutS(Stub):
+                """sys.stdout: what is written is the report (split into lines as the terminal shows it)"""
+
+                def __init__(self):
+                    self.pending = ""
+
+                def write(self, text):
+                    if not isinstance(text, str):
+                        raise NotConst("sys.stdout.write of a non-string")
+                    self.pending += text
+                    where = _print_site()
+                    while "\n" in self.pending:
+                        ln, self.pending = self.pending.split("\n", 1)
+                        cap.lines.append(ln)
+                        cap.sites.append(where)
+                    return len(text)
+
+                def flush(self):
+                    return None
+
+            stdout = StdoutS()
 
             def find_clashes(*a, **k):
                 cap.find_args.append((a, k))
@@ -1611,7 +1796,7 @@ class MainEval:
                 raise Exit()
 
             def out(*a, **k):
-                if k.get("file") is not None:
+                if k.get("file") is not None and k.get("file") is not stdout:
                     return  # diagnostics written elsewhere are not the report
                 text = k.get("sep", " ").join(str(x) for x in a)
                 where = _print_site()
@@ -1648,7 +1833,7 @@ class MainEval:
                 print=out,
                 csv=ns(_folder_stub=True, writer=lambda f, *a, **k: WriterS(cap), DictWriter=lambda f, fieldnames=None, *a, **k: WriterS(cap, list(fieldnames) if fieldnames is not None else None), QUOTE_MINIMAL=0, QUOTE_ALL=1, QUOTE_NONNUMERIC=2, QUOTE_NONE=3),
                 os=ns(_folder_stub=True, path=ns(_folder_stub=True, splitext=os.path.splitext, basename=os.path.basename, dirname=os.path.dirname, join=os.path.join)),
-                sys=ns(_folder_stub=True, exit=_exit, argv=["clashfinder"]),
+                sys=ns(_folder_stub=True, exit=_exit, argv=["clashfinder"], stdout=stdout, stderr=ns(_folder_stub=True, write=lambda *a: 0, flush=lambda: None)),
                 exit=_exit,
             )
             ev = Ev(repo, M, env)
